@@ -25,7 +25,15 @@ def pEv : P Ev := do
     if k = "a" then do let i ← nat; let tm ← nat; let p ← nat; pure (.fapply s l i tm p)
     else if k = "r" then do let d ← many nat; pure (.frestore s l d)
     else failure
-  else if t = "N" then do let s ← nat; let l ← nat; let v ← nat; pure (.notify s l (v ≠ 0))
+  else if t = "N" then do let s ← nat; let l ← nat; let v ← nat; let tm ← nat; pure (.notify s l (v ≠ 0) tm)
+  else if t = "CALM" then do let tm ← nat; pure (.calm tm)
+  else if t = "CALMEND" then do let tm ← nat; pure (.calmEnd tm)
+  else if t = "ISO" then do let s ← nat; let l ← nat; let tm ← nat; let ls ← nat; pure (.isolate s l tm ls)
+  else if t = "END" then do let tm ← nat; pure (.endObs tm)
+  else if t = "RI" then do let s ← nat; let l ← nat; let tm ← nat; pure (.restoreInvoke s l tm)
+  else if t = "R" then do
+    let s ← nat; let l ← nat; let t0 ← nat; let t1 ← nat; let ok ← nat; let mi ← nat; let la ← nat; let d ← many nat
+    pure (.restore s l t0 t1 (ok ≠ 0) mi la d)
   else if t = "X" then do let s ← nat; let l ← nat; let _ ← tok; pure (.dead s l)
   else if t = "Z" then do let s ← nat; let l ← nat; let tm ← nat; pure (.crash s l tm)
   else if t = "I" then do let c ← nat; pure (.invoke c)
@@ -60,6 +68,8 @@ def cmonFor : String → List CMon
   | "C05" => [commitLeLast]
   | "C08" => [clientOutcomes, barrierOK]
   | "C09" => [verifyFresh]
+  | "C13" => [leaseStepDown, calmStable]
+  | "C20" => [restoreOK, finalStatesEqual, allResolved]
   | "C12" => [converged]
   | "C17" => [allResolved]
   | "C18" => [notifyAlternates]
